@@ -71,7 +71,7 @@ m = {
  "version": 1,
  "setup_cmd": "cd /verif && GOFLAGS=-mod=mod GOPROXY=off GOSUMDB=off GOTOOLCHAIN=local go build -o bin/ssa2vir ./cmd/ssa2vir && GOFLAGS=-mod=mod GOPROXY=off GOSUMDB=off GOTOOLCHAIN=local go build -o bin/e3instr ./cmd/e3instr",
  "hooks": {"guard": "verif", "enable": "no source hooks in /repo: harness files under /verif/harness are injected with go/packages overlays (encoding) and `go test -overlay` (replay)",
-           "baseline_off_cmd": "cd /repo && go test -vet=off -count=1 -timeout 25m ./...", "source_commits": [], "add_only": True},
+           "baseline_off_cmd": "cd /repo && go test -mod=mod -json -vet=off -count=1 -timeout 25m ./...", "source_commits": [], "add_only": True},
  "engines": [
    {"name": "E2", "path": "/verif/vsym/e2", "serves_properties": sorted(p for p in claimed if "E2" in claimed[p][0]), "kind_free_text": "Go-SSA symbolic executor (python + z3) over a JSON IR lowered by cmd/ssa2vir from /repo's working tree"},
    {"name": "E3", "path": "/verif/vsym/e3", "serves_properties": sorted(p for p in claimed if claimed[p][0] == "E3"), "kind_free_text": "event extraction from the real SSA + partial-order SMT encoding of schedules (python + z3), cmd/e3instr for forced-schedule native replay"},
